@@ -569,15 +569,26 @@ def parse_slf(m, stmts):
     return ("BSlf", {"guard": guard, "binds": binds, "stop_on": e["s"].s, "stop_await": aw, "call": call, "await": caw, "else": els, "turbo": _LAST_TURBO[0]})
 
 
+def rust_int(text):
+    """value of a Rust integer literal (decimal, 0x / 0o / 0b, `_` separators, optional integer suffix); None when it is not one"""
+    t = re.sub(r"(usize|isize|u\d+|i\d+)$", "", text)
+    for pre, base, digs in (("0x", 16, "0-9a-fA-F"), ("0o", 8, "0-7"), ("0b", 2, "01"), ("", 10, "0-9")):
+        if t.startswith(pre):
+            body = t[len(pre):]
+            if re.match(r"^[%s_]*[%s][%s_]*$" % (digs, digs, digs), body) and (pre or body[0] != "_"):
+                return int(body.replace("_", ""), base)
+            return None
+    return None
+
+
 def parse_chan_ctor(path_segs, args):
     p = "::".join(path_segs)
     unb = ("std::sync::mpsc::channel", "tokio::sync::mpsc::unbounded_channel", "async_std::channel::unbounded", "async_channel::unbounded")
     bnd = ("std::sync::mpsc::sync_channel", "tokio::sync::mpsc::channel", "async_std::channel::bounded", "async_channel::bounded")
     if p in unb and not args:
         return ("ChUnbounded", p)
-    if p in bnd and len(args) == 1 and len(args[0]) == 1 and args[0][0].k == "lit" and re.match(r"^[0-9_]+(usize|u\d+|i\d+)?$", args[0][0].s):
-        n = int(re.sub(r"(usize|u\d+|i\d+)$", "", args[0][0].s).replace("_", ""))
-        return ("ChBounded", n, p)
+    if p in bnd and len(args) == 1 and len(args[0]) == 1 and args[0][0].k == "lit" and rust_int(args[0][0].s) is not None:
+        return ("ChBounded", rust_int(args[0][0].s), p)
     return ("ChOther", p + "(" + ",".join(render(a) for a in args) + ")")
 
 
